@@ -41,6 +41,9 @@ pub enum IdEdit {
     /// an input of a transaction re-pointed to another spendable output of the same owner with the
     /// same amount, slip index and type (created by a different transaction)
     RepointInput(u16),
+    /// the last routing hop of a transaction dropped (hops are signed one by one, the path as a
+    /// whole is not covered by the transaction hash)
+    DropLastHop(u16),
     /// control: no edit at all (must be accepted)
     Identity,
 }
@@ -186,6 +189,14 @@ fn apply(orig: &Block, e: &IdEdit) -> Option<(Block, bool, bool)> {
             b.transactions.insert(pick(*s, n + 1), t);
         }
         IdEdit::RepointInput(_) => return None, // needs the replica's ledger: applied by judge_edits
+        IdEdit::DropLastHop(s) => {
+            let with_path: Vec<usize> = b.transactions.iter().enumerate().filter(|(_, t)| !t.path.is_empty()).map(|(i, _)| i).collect();
+            if with_path.is_empty() {
+                return None;
+            }
+            let i = with_path[pick(*s, with_path.len())];
+            b.transactions[i].path.pop();
+        }
         IdEdit::MutateTxReplacements(s, r) => {
             if n == 0 {
                 return None;
@@ -473,6 +484,7 @@ pub fn arb_edit() -> impl Strategy<Value = IdEdit> {
         (any::<u16>(), any::<u8>(), any::<u8>()).prop_map(|(s, t, r)| IdEdit::InsertTyped(s, t, r)),
         (any::<u16>(), any::<u8>()).prop_map(|(s, r)| IdEdit::MutateTxReplacements(s, r)),
         any::<u16>().prop_map(IdEdit::RepointInput),
+        any::<u16>().prop_map(IdEdit::DropLastHop),
         (0u8..SIGNED_FIELDS as u8).prop_map(IdEdit::HeaderSigned),
         (0u8..UNSIGNED_FIELDS as u8).prop_map(IdEdit::HeaderUnsigned),
         any::<u16>().prop_map(IdEdit::MerkleOfEdited),
